@@ -133,12 +133,23 @@ BufStep(T, e) ==
                 \cup (IF ok THEN TreeLaws(Consume(T, k), T2, "advance_drop") ELSE {})]
     [] e.op = "into_iter" ->
          [V |-> bad(ok /\ e.res.v = F /\ e.res.n = len /\ e.res.flag, "iter_exact") \cup (IF ok THEN consumed(len) ELSE {})]
+    \* Iterator::nth(n) and what is built on it (skip, step_by): the (n+1)-th byte or nothing,
+    \* exactly min(n + 1, len) bytes consumed, never a panic
+    [] e.op = "iter_nth" ->
+         LET k == Min2(n + 1, len) IN
+         [V |-> bad(ok /\ e.res.v = (IF n < len THEN <<F[n + 1]>> ELSE <<>>), "iter_exact") \cup (IF ok THEN consumed(k) ELSE {})]
     [] OTHER -> [V |-> {}]
 
 (***************************************************************************)
 (* Sink trees                                                              *)
 (***************************************************************************)
-RECURSIVE Room(_), WriteTree(_, _), GuardsOk(_), Written(_)
+RECURSIVE Room(_), WriteTree(_, _), GuardsOk(_), Written(_), AllFixed(_)
+FILL == 51      \* initial content of the harness' fixed targets (0x33)
+AllFixed(t) ==
+  CASE t.k = "leaf" -> t.fixed
+    [] t.k = "chain" -> AllFixed(t.a) /\ AllFixed(t.b)
+    [] t.k \in {"limit", "ref", "box"} -> AllFixed(t.t)
+    [] OTHER -> FALSE
 
 Room(t) ==
   CASE t.k = "leaf" -> t.room
@@ -178,7 +189,9 @@ WriteLaws(T, e, s) ==
   LET ok == e.out = "ok" T2 == e.tree IN
   IF Len(s) <= Room(T)
   THEN (IF ok THEN SinkTreeLaws(WriteTree(T, s), T2) ELSE {<<"C11", "fitting_write_ok">>})
-  ELSE (IF ok THEN {<<"C11", "overflow_panics">>} ELSE {})
+  ELSE (IF ok THEN {<<"C11", "overflow_panics">>}
+        \* a write that does not fit writes nothing: the target still has its room and contents
+        ELSE IF T2.k = "gone" \/ (Room(T2) = Room(T) /\ Written(T2) = Written(T)) THEN {} ELSE {<<"C11", "failed_write_untouched">>})
 
 MutStep(T, e) ==
   LET n == e.n
@@ -194,7 +207,8 @@ MutStep(T, e) ==
     [] e.op = "put_bytes" -> [V |-> g \cup WriteLaws(T, e, [i \in 1..n |-> e.val])]
     [] e.op = "put_buf" -> [V |-> g \cup WriteLaws(T, e, Flat(e.src))]
     [] e.op = "manual" ->
-         [V |-> g \cup (IF ok /\ e.res.n <= Len(e.d) /\ e.res.n <= room /\ (e.res.n = 0 => (room = 0 \/ e.d = <<>>))
+         [V |-> g \cup (IF e.res.flag THEN {} ELSE {<<"C11", "uninit_index_checked">>})
+                  \cup (IF ok /\ e.res.n <= Len(e.d) /\ e.res.n <= room /\ (e.res.n = 0 => (room = 0 \/ e.d = <<>>))
                         THEN SinkTreeLaws(WriteTree(T, Take(e.d, e.res.n)), T2) ELSE {<<"C11", "chunk_mut_bounds">>})]
     \* a wrong answer of a Chain / Limit about its room is also a bookkeeping error of the adapter (C12)
     [] e.op = "chunk_mut_len" ->
@@ -205,9 +219,16 @@ MutStep(T, e) ==
     [] e.op = "has_remaining_mut" ->
          [V |-> g \cup (IF ok /\ e.res.flag = (room > 0) THEN {} ELSE {<<"C11", "room_exact">>} \cup adp) \cup SinkTreeLaws(T, T2)]
     [] e.op = "write" ->
-         LET k == Min2(Len(e.d), room) IN
-         [V |-> g \cup (IF ok /\ e.res.flag /\ e.res.n = k THEN {} ELSE {<<"C12", "io_min">>})
+         LET k == Min2(Len(e.d), room)
+             \* write: Ok(k).  write_all / write_fmt (m = "all", "fmt"): the k bytes that fit are
+             \* transferred; Ok iff everything fitted
+             res == IF e.m \in {"all", "fmt"} THEN e.res.flag = (Len(e.d) <= room) /\ e.res.n = k ELSE e.res.flag /\ e.res.n = k
+         IN
+         [V |-> g \cup (IF ok /\ res THEN {} ELSE {<<"C12", "io_min">>})
                   \cup (IF ok THEN SinkTreeLaws(WriteTree(T, Take(e.d, k)), T2) ELSE {})]
+    [] e.op = "advance_mut" ->
+         IF n <= room THEN [V |-> g \cup (IF ok THEN SinkTreeLaws(WriteTree(T, [i \in 1..n |-> FILL]), T2) ELSE {<<"C11", "fitting_write_ok">>})]
+         ELSE [V |-> g]
     [] e.op = "set_limit" -> [V |-> g \cup (IF T2 = SetLim(T, e.path, n) THEN {} ELSE {<<"C12", "set_limit">>})]
     [] OTHER -> [V |-> g]
 
